@@ -243,7 +243,7 @@ def run(ctx):
     C01.tunnel_checks(sub, "C15.R4")
     for o in sub.obligations:
         ctx.ob(o.rule, o.where, o.ok, o.what, key=o.key, loc=o.loc, detail=o.detail)
-    ctx.floor("C15.R4", 5)
+    ctx.floor("C15.R4", 6)
 
     # ---- R8 the same transform on every call: parse and build of the transform classes write nothing into the construct (shared with C17.R1)
     from . import C17
